@@ -275,3 +275,73 @@ theorem parseStep_error_in_items (items : List PItem) (e : LexErr)
     exact ⟨it, List.mem_of_getElem? hg, hi⟩
 
 end Rva
+
+namespace Rva
+
+/-- **C07 (`parseLoop_keeps`).** What the parse loop has collected is never dropped or reordered
+    later: for every stack of pending item lists, reader state and fuel, the nodes and the parse
+    errors collected so far are a prefix of the nodes and errors of the final result. -/
+theorem parseLoop_keeps (fuel : Nat) : ∀ (stack : List (List PItem)) (r : Reader) (nodes : List Node)
+    (errs : List ParseErr),
+    nodes.reverse <+: (parseLoop fuel stack r nodes errs).nodes ∧
+    errs.reverse <+: (parseLoop fuel stack r nodes errs).errors := by
+  induction fuel with
+  | zero => intro stack r nodes errs; unfold parseLoop; exact ⟨List.prefix_refl _, List.prefix_refl _⟩
+  | succ n ih =>
+    intro stack r nodes errs
+    cases stack with
+    | nil => unfold parseLoop; exact ⟨List.prefix_refl _, List.prefix_refl _⟩
+    | cons top below =>
+      have grow : ∀ (l : List Node) (x : Node), l.reverse <+: (x :: l).reverse := by
+        intro l x; simp
+      have growE : ∀ (l : List ParseErr) (x : ParseErr), l.reverse <+: (x :: l).reverse := by
+        intro l x; simp
+      unfold parseLoop
+      split
+      · split
+        · split
+          · exact ih _ _ _ _
+          · exact ⟨(ih _ _ _ _).1, (growE _ _).trans (ih _ _ _ _).2⟩
+        · exact ⟨(grow _ _).trans (ih _ _ _ _).1, (ih _ _ _ _).2⟩
+      · split
+        all_goals first
+          | exact ih _ _ _ _
+          | exact ⟨(ih _ _ _ _).1, (growE _ _).trans (ih _ _ _ _).2⟩
+          | exact ⟨((grow _ _).trans (grow _ _)).trans (ih _ _ _ _).1, (ih _ _ _ _).2⟩
+
+end Rva
+
+namespace Rva
+
+/-- the parse error the loop records for a statement that failed with `e` (none for a blank line,
+    a comment, the end of the input and the two-node expansion) -/
+def LexErr.reported : LexErr → Option ParseErr
+  | .expected ex got => some (.expected ex got)
+  | .unexpectedToken got => some (.unexpectedToken got)
+  | .unexpectedError t => some (.unexpectedError t)
+  | .unknownDirective t => some (.unknownDirective t)
+  | .ignoredWithWarning t | .unsupportedDirective t => some (.unsupported t)
+  | .invalidString t k p => some (.invalidString t k p)
+  | .isNewline _ | .unexpectedEOF | .needTwoNodes _ _ | .ignoredWithoutWarning => none
+
+/-- **C07 (`failed_statement_reported`).** A statement that fails with an error of a reportable
+    kind is in the final list of parse errors, whatever the rest of the input does: with
+    `parseStep_error_located`, every failed statement is named by a parse error located on one of
+    the items it consumed (or the first one it refused). -/
+theorem failed_statement_reported (fuel : Nat) (top : List PItem) (below : List (List PItem)) (r : Reader)
+    (nodes : List Node) (errs : List ParseErr) (e : LexErr) (rest : List PItem) (pe : ParseErr)
+    (h : parseStep top = (.error e, rest)) (hpe : e.reported = some pe) :
+    pe ∈ (parseLoop (fuel + 1) (top :: below) r nodes errs).errors := by
+  have key : ∀ (stack : List (List PItem)),
+      pe ∈ (parseLoop fuel stack r nodes (pe :: errs)).errors := by
+    intro stack
+    have := (parseLoop_keeps fuel stack r nodes (pe :: errs)).2
+    exact this.subset (by simp)
+  unfold parseLoop
+  rw [h]
+  cases e <;> simp only [LexErr.reported, Option.some.injEq] at hpe <;> (try subst hpe) <;>
+    first
+    | exact key _
+    | (simp at hpe)
+
+end Rva
